@@ -392,10 +392,10 @@ def _discover():
     """Found by trying (so the sets follow the code), cached per content hash of the checked tree:
        consumed  = options for which a meaningless object makes construction fail,
        noarray   = options that additionally cannot hold a NumPy array (used in a truth/equality test),
-       rsafe     = advanced options the constructor can do without (reserved-name corner)."""
+       rsafe     = advanced options named inside the reserved-name corner's set value."""
     if _CONSUMED:
         return _CONSUMED
-    cache = core.CACHE / "c20" / f"discover-v3-{core.repo_tree_hash()}.json"
+    cache = core.CACHE / "c20" / f"discover-v4-{core.repo_tree_hash()}.json"
     if cache.exists():
         _CONSUMED.update({k: v for k, v in json.loads(cache.read_text()).items()})
         return _CONSUMED
@@ -403,7 +403,7 @@ def _discover():
     static = [k for k in F["keys"] if _consumed_table(_ZeroRng(), k, 0, 2, False) is not None]
     consumed = [k for k in F["keys"] if not _probe({k: Tag(0)})]
     noarray = [k for k in F["keys"] if k not in consumed and not _probe({k: np.array([3.0, 0.25])})]
-    rsafe = [k for k in F["keys"] if k not in F["basic_keys"] and _probe({RESERVED: {k}})]
+    rsafe = [k for k in F["keys"] if k not in F["basic_keys"] and k not in consumed]
     trusted = _probe(None) and _probe({"display": "off"}) and len(consumed) <= 40 and len(noarray) <= 60
     if not trusted:
         # constructions fail wholesale on this tree: do not let that shape the generator — use the static
@@ -1069,7 +1069,7 @@ def t2_gen_unknown(rng, idx):
 
 
 def t2_gen_reserved(rng, idx):
-    """The reserved-name corner (known finding): tie the model on it as well."""
+    """The reserved name in the user's dict (repaired finding): must be rejected whatever its value."""
     F = files()
     D = rng.randint(1, 4)
     safe = [k for k in reserved_safe_keys() if k not in consumed_keys()]
